@@ -4,25 +4,29 @@ import json
 import os
 
 V = os.path.dirname(os.path.dirname(os.path.abspath(__file__)))
-TB = ("Lean 4.33 kernel; axioms propext/Classical.choice/Quot.sound at most (audited per theorem on every run, "
+TB_UNUSED = ("Lean 4.33 kernel; axioms propext/Classical.choice/Quot.sound at most (audited per theorem on every run, "
       "no sorry/admit/native_decide/bv_decide/own axioms); the hand-written Lean model is tied to the C code by "
       "differential execution of the real sources built from /repo's working tree on every run plus constants "
       "regenerated from /repo (Gen/Consts.lean); harness C code, generators, gcc, ASan/UBSan are trusted")
 
-CLAIMED = {
-    "C13": dict(
-        engine="cbuf",
-        technique="Lean 4 proof (index model refines FIFO spec, invariant by induction over operations) + "
-                  "differential correspondence of cbuf.c against the compiled model",
-        text="Theorems in lean/PdshVerif/Props/C13.lean about the index-level model of cbuf.c (all op sequences, "
-             "all sizes, all three modes); the model is executed against the real cbuf.c (assertions+ASan and "
-             "shipped flavour) on generated op histories, and the real code is also compared op by op with the "
-             "plain FIFO specification, which yields the failing history as replay.",
-        design_ref="DESIGN.md section 5 C13",
-        note=TB + "; read(2)/pipe, memcpy/memmove/realloc modelled not verified; per-cbuf mutex not modelled"),
-}
-
 NOT_YET = {}
+
+
+def load_claimed():
+    """every checks/cNN.py that defines MANIFEST = dict(engine, technique, text, design_ref, note[, category])"""
+    import importlib
+    import sys
+    sys.path.insert(0, V)
+    out = {}
+    for f in sorted(os.listdir(os.path.join(V, "checks"))):
+        if f.startswith("c") and f.endswith(".py"):
+            m = importlib.import_module("checks." + f[:-3])
+            if hasattr(m, "MANIFEST"):
+                out[f[:-3].upper()] = m.MANIFEST
+    return out
+
+
+CLAIMED = load_claimed()
 
 
 def main():
@@ -62,8 +66,10 @@ def main():
         "engines": [
             {"name": "lean", "path": "lean/", "serves_properties": sorted(CLAIMED),
              "kind_free_text": "Lake library PdshVerif (models, specs, theorems) + compiled driver pdshmodel"},
-            {"name": "cbuf", "path": "harness/cbuf_harness.c", "serves_properties": ["C13"],
-             "kind_free_text": "in-process line-protocol harness around the real cbuf.c"},
+        ] + [
+            {"name": e, "path": "harness/", "serves_properties": sorted(k for k, c in CLAIMED.items() if c["engine"] == e),
+             "kind_free_text": "correspondence harness (see checks/ and harness/)"}
+            for e in sorted(set(c["engine"] for c in CLAIMED.values()))
         ],
         "checks": checks,
         "not_applicable": na,
